@@ -67,8 +67,8 @@ Definition fact1 (p : list N) (x : term) : clause := (Cmp p [x], Atom n_true).
 Definition mf : list N := [109; 102].          (* mf/1, multifile *)
 Definition st : list N := [115].               (* s/1, static *)
 Definition text_a : text :=
-  [IDecl DMultifile (mf, 1%nat); IClause (fact1 mf (a_ 97)); IClause (fact1 st (Int 1));
-   IOp 700 XFX [61; 61; 61]; IInit (Atom n_true); IClause (fact1 mf (a_ 98))].
+  [IDecl DMultifile (mf, 1%nat); IClause (fact1 mf (a_ 97)); IClause (fact1 mf (a_ 98)); IClause (fact1 st (Int 1));
+   IOp 700 XFX [61; 61; 61]; IInit (Atom n_true)].
 Definition text_b : text := [IDecl DMultifile (mf, 1%nat); IClause (fact1 mf (a_ 99))].
 
 (* text b loaded under identity 2, then text a under identity 1, twice *)
@@ -87,6 +87,13 @@ Proof. vm_compute. reflexivity. Qed.
 Example ex_anonymous_identity_shared :
   observe 50 (db_of (load 0 text_a (load 0 text_b machine0))) (mf, 1%nat) = OAns [tlist [a_ 97]; tlist [a_ 98]].
 Proof. vm_compute. reflexivity. Qed.
+
+(* a multifile predicate that is not discontiguous contributes its last run only; a discontiguous one all clauses *)
+Example ex_last_run :
+  let s d := [IDecl d (mf, 1%nat); IClause (fact1 mf (a_ 97)); IClause (fact1 st (Int 1)); IClause (fact1 mf (a_ 98))] in
+  observe 50 (db_of (load 1 (s DMultifile) machine0)) (mf, 1%nat) = OAns [tlist [a_ 98]] /\
+  observe 50 (db_of (load 1 (s DDiscontiguous) machine0)) (mf, 1%nat) = OAns [tlist [a_ 97]; tlist [a_ 98]].
+Proof. vm_compute. split; reflexivity. Qed.
 
 (* the machine as a whole is NOT unchanged by a reload (compiled code is not reclaimed): db_of is essential *)
 Example ex_machine_changes : mcode (load 1 text_a (load 1 text_a machine0)) <> mcode (load 1 text_a machine0).
